@@ -246,6 +246,7 @@ def run(tier):
         run_schema(ck, m, ck.rng, n_docs, max_depth=ck.rng.choice([2, 3, 3, 4]),
                    p_bad=ck.rng.choice([0.0, 0.03, 0.05, 0.08]))
     custom_scalar_arguments(ck, 150 if tier == "quick" else 2000)
+    custom_scalar_literal_arguments(ck, 400 if tier == "quick" else 6000)
     derived_schema_history(ck)
     ck.rule = ("type-directed generation: per schema (objects, interfaces incl. interface hierarchies, unions, enums, "
                "list/non-null nesting up to 2 lists, input objects incl. OneOf and nested defaults, arguments with defaults) "
@@ -358,6 +359,95 @@ def custom_scalar_arguments(ck, n):
                           "document": q, "variables": {v: pool[v] for v in used}, "impl": repr(got), "model": repr(want),
                           "errors": [e.message for e in res.errors or []]})
     ck.count("custom_scalar_argument_cases", n)
+
+
+def custom_scalar_literal_arguments(ck, n):
+    """Arguments of a custom scalar that defines coerce_input_literal (JSON-like, outside the Coq
+    fragment): the scalar sees the literal with the variables replaced.  Variables with and without
+    defaults, provided / null / not provided, nested in lists and objects.  Oracle: a provided
+    variable stands for its value; one that is not provided for its default if it declares one,
+    else for null in a list or at the top and for an ABSENT field in an object."""
+    from graphql import (GraphQLArgument, GraphQLBoolean, GraphQLField, GraphQLFloat, GraphQLInt, GraphQLList,
+                         GraphQLNonNull, GraphQLObjectType, GraphQLScalarType, GraphQLSchema, GraphQLString,
+                         execute_sync, parse)
+    from graphql.utilities import value_from_ast_untyped
+    rng = ck.rng
+    json_scalar = GraphQLScalarType("Json", coerce_input_value=lambda v: v,
+                                    coerce_input_literal=lambda node, *_a: value_from_ast_untyped(node))
+    schema = GraphQLSchema(GraphQLObjectType("Query", {
+        "put": GraphQLField(GraphQLString, {"doc": GraphQLArgument(json_scalar)}),
+        "echo": GraphQLField(GraphQLString, {"x": GraphQLArgument(GraphQLList(GraphQLNonNull(json_scalar)))})}),
+        types=[GraphQLInt, GraphQLFloat, GraphQLBoolean, GraphQLString])
+    # name -> (type, default literal text | None, default value, a value a client may send)
+    decl = {"n": ("Int", None, None, 3), "nd": ("Int", "10", 10, 4), "s": ("String", None, None, "str"),
+            "sd": ("String", '"dflt"', "dflt", "sent"), "b": ("Boolean", "true", True, False),
+            "f": ("Float", None, None, 1.5), "l": ("[Int]", "[1, 2]", [1, 2], [7]), "ln": ("[Int]", None, None, [8, None]),
+            "nz": ("Int", "null", None, 5)}
+    absent = object()
+
+    def gen(depth, state):
+        """-> (literal text, expected value or `absent` (only for a variable in field position))"""
+        k = rng.randint(0, 7 if depth > 0 else 3)
+        if k in (0, 1):
+            v = rng.choice(list(decl))
+            st = state.setdefault(v, rng.choice(["sent", "null", "unset", "unset"]))
+            ty, dtext, dval, sent = decl[v]
+            if st == "sent":
+                return "$" + v, sent, True
+            if st == "null":
+                return "$" + v, None, True
+            return "$" + v, (dval if dtext is not None else absent), True
+        if k == 2:
+            x = rng.choice([0, -7, "a", "", 1.25, True])
+            return json.dumps(x), x, False
+        if k == 3:
+            return rng.choice([("null", None, False), ("ENUMV", "ENUMV", False)])
+        if k in (4, 5):
+            items = [gen(depth - 1, state) for _ in range(rng.randint(0, 3))]
+            return ("[" + ", ".join(i[0] for i in items) + "]",
+                    [None if i[1] is absent else i[1] for i in items], False)
+        keys = rng.sample(["a", "b", "c", "d"], rng.randint(0, 4))
+        items = [(k_, gen(depth - 1, state)) for k_ in keys]
+        return ("{" + ", ".join(f"{k_}: {i[0]}" for k_, i in items) + "}",
+                {k_: i[1] for k_, i in items if i[1] is not absent}, False)
+
+    for _ in range(n):
+        state = {}
+        text, want, _is_var = gen(3, state)
+        if want is absent:
+            want = None
+        field = rng.choice(["put", "echo"])
+        if field == "echo":
+            text, want = "[" + text + "]", [want]
+            if want[0] is None:
+                continue
+        vdefs = ", ".join(f"${v}: {decl[v][0]}" + (f" = {decl[v][1]}" if decl[v][1] is not None else "")
+                          for v in sorted(state))
+        variables = {v: (decl[v][3] if st == "sent" else None) for v, st in state.items() if st != "unset"}
+        q = "query" + (f"({vdefs})" if vdefs else "") + " { " + (f"put(doc: {text})" if field == "put" else f"echo(x: {text})") + " }"
+        got = []
+
+        def resolver(_src, _info, **kw):
+            got.append(kw)
+            return "ok"
+        try:
+            res = execute_sync(schema, parse(q), variable_values=variables, field_resolver=resolver)
+        except Exception as e:  # noqa: BLE001
+            ck.violation(f"custom-scalar-lit:{q}", f"execute_sync raised {type(e).__name__} for {q}", {"relation": "execution never raises", "document": q})
+            continue
+        ck.note_case(("custom-scalar-lit", q, repr(sorted(variables.items(), key=repr))), nontrivial=bool(state))
+        for st in state.values():
+            ck.count("custom_scalar_literal_variable:" + st)
+        key = "doc" if field == "put" else "x"
+        if res.errors or not got or got[0].get(key, None) != want:
+            ck.violation(f"custom-scalar-lit:{q}:{sorted(variables.items(), key=repr)!r}",
+                         f"resolver of a custom-scalar (coerce_input_literal) argument received "
+                         f"{got[0].get(key) if got else None!r}, variable replacement prescribes {want!r} for {q} with {variables!r}",
+                         {"relation": "resolver arguments = coerced arguments (custom scalar with coerce_input_literal; "
+                                      "variables provided / null / unset, with and without defaults)",
+                          "document": q, "variables": variables, "impl": repr(got), "model": repr(want),
+                          "errors": [e.message for e in res.errors or []]})
+    ck.count("custom_scalar_literal_argument_cases", n)
 
 
 def run_one(sdl, text, variables, data, operation_name=None):
